@@ -669,8 +669,15 @@ def _exec_client_pair(arg: Tuple[Dict[str, str], str, str, str]) -> Dict[str, An
         # imports changes which binding wins: known finding K6
         ns: Dict[str, Any] = {"__name__": "client_probe"}
         shadowed = set()
+        def _only_imports(n_: ast.AST) -> bool:
+            # a module level try whose branches hold nothing but imports binds names like the imports themselves
+            return isinstance(n_, ast.Try) and all(
+                isinstance(c_, (ast.Import, ast.ImportFrom, ast.Pass))
+                for c_ in [*n_.body, *(m_ for h_ in n_.handlers for m_ in h_.body), *n_.orelse, *n_.finalbody]
+            )
+
         for node in ast.parse(before_text).body:
-            if isinstance(node, (ast.Import, ast.ImportFrom)):
+            if isinstance(node, (ast.Import, ast.ImportFrom)) or _only_imports(node):
                 ids_before = {k: id(v) for k, v in ns.items()}
                 try:
                     exec(compile(ast.Module(body=[node], type_ignores=[]), "<import>", "exec"), ns)
